@@ -390,7 +390,50 @@ func c11(c *Ctx) {
 		}
 		valid := jsonmap.Marshal(tree)
 		protoText := u.FP.File.Proto()
-		for mi, mu := range mutations(valid, wire(full), c.Thorough()) {
+		muts := mutations(valid, wire(full), c.Thorough())
+		// a JSON object that carries TWO members of one oneof has no decoding (proto3 JSON: an error)
+		for oi := 0; oi < md.Oneofs().Len(); oi++ {
+			od := md.Oneofs().Get(oi)
+			if od.IsSynthetic() || od.Fields().Len() < 2 {
+				continue
+			}
+			for k := 0; k+1 < od.Fields().Len() && k < 3; k++ {
+				for _, swap := range []bool{false, true} {
+					fa, fb := od.Fields().Get(k), od.Fields().Get(k+1)
+					if swap {
+						fa, fb = fb, fa
+					}
+					ma, mb := proto.Clone(full).(*dynamicpb.Message), proto.Clone(full).(*dynamicpb.Message)
+					g.SetMember(ma, fa, 0)
+					g.SetMember(mb, fb, 1)
+					ta, ea := enc.Message(ma)
+					tb, eb := enc.Message(mb)
+					if ea != nil || eb != nil {
+						continue
+					}
+					oa, okA := jsonmap.Resolve(ta).(map[string]any)
+					ob, okB := jsonmap.Resolve(tb).(map[string]any)
+					if !okA || !okB {
+						continue
+					}
+					// the member's own key must be recognisable: only the plain mapping (member under its JSON name)
+					if _, has := ob[fb.JSONName()]; !has {
+						continue
+					}
+					if _, has := oa[fb.JSONName()]; has {
+						continue
+					}
+					merged := map[string]any{}
+					for key, v := range oa {
+						merged[key] = v
+					}
+					merged[fb.JSONName()] = ob[fb.JSONName()]
+					b, _ := json.Marshal(merged)
+					muts = append(muts, mutation{Class: fmt.Sprintf("two-members-of-one-oneof/%s+%s", fa.Name(), fb.Name()), Body: b, CT: "application/json"})
+				}
+			}
+		}
+		for mi, mu := range muts {
 			caseID := base + "@" + mu.Class
 			if !c.Want(caseID) {
 				continue
@@ -478,6 +521,13 @@ func c11(c *Ctx) {
 			case resp.Status == 200:
 				if len(hs) != 1 {
 					c.R.Violate(caseID, "ok-without-dispatch", "", rp)
+					break
+				}
+				if strings.HasPrefix(mu.Class, "two-members-of-one-oneof/") {
+					g2 := dynamicpb.NewMessage(md)
+					_ = proto.Unmarshal(unb64(hs[0].Str("req")), g2)
+					rp["handler_saw"] = fmt.Sprint(g2)
+					c.R.Violate(caseID, "dispatched-undecodable-body", "two members of one oneof", rp)
 					break
 				}
 				got := dynamicpb.NewMessage(md)
